@@ -332,6 +332,8 @@ Fixpoint check (fuel : nat) (tbl : list fn) (es : list ev) (af : list aobj) : op
         match check f tbl b af with
         | None => None
         | Some af1 =>
+          if le_fr af af1 then check f tbl rest af      (* the body loses nothing: af itself is the invariant *)
+          else
           let m := meet_fr af af1 in
           match check f tbl b m with
           | None => None
